@@ -205,7 +205,7 @@ func c05Run(c c05Case) []*core.Violation {
 			switch strings.ToUpper(k) {
 			case "BODY", "SMTPUTF8":
 			case "RET":
-				if !dsnAdv || !strings.EqualFold(v, ret) || ret == "" {
+				if !dsnAdv || !strings.EqualFold(v, strings.TrimSpace(ret)) || ret == "" {
 					vs = append(vs, core.V("extra-param", "MAIL parameter %q (configured RET=%q, DSN advertised=%v)\n%s", p, ret, dsnAdv, tr))
 				}
 			default:
@@ -342,7 +342,9 @@ func c05Gen(t *rapid.T) c05Case {
 		c.Cfg.DSN = "default"
 	case 2:
 		c.Cfg.DSN = "custom"
-		c.Cfg.DSNRet = rapid.SampledFrom([]string{"", "FULL", "HDRS"}).Draw(t, "ret")
+		c.Cfg.DSNRet = rapid.SampledFrom([]string{"", "FULL", "HDRS", "FULL", "HDRS",
+			// values a configuration file might hold: to be refused by the option, or sent as exactly FULL/HDRS
+			" FULL", "FULL\n", "HDRS ", "full", "HDRS\r\nRSET", "FULL SIZE=1", "\tHDRS"}).Draw(t, "ret")
 		c.Cfg.DSNNotify = rapid.SampledFrom([][]string{nil, {"NEVER"}, {"SUCCESS"}, {"FAILURE", "DELAY"}, {"SUCCESS", "FAILURE", "DELAY"}, {"DELAY", "DELAY"},
 			// combinations RFC 3461 does not allow (NEVER stands alone): to be refused, never sent
 			{"SUCCESS", "NEVER"}, {"NEVER", "FAILURE"}, {"FAILURE", "DELAY", "NEVER"}, {"NEVER", "NEVER"}}).Draw(t, "notify")
